@@ -42,6 +42,7 @@ class CallMixin:
         info = ExcInfo(cls, self.here(node), fr.func.qual if fr.func else None, self.ctrl_symbols(), explicit, value,
                        tuple(f.func.qual for f in self.frames if f.func is not None))
         info.ctrl_conds = tuple((c, p) for f in self.frames for c, p in f.ctrl)
+        info.ctrl_by_depth = tuple(len(f.ctrl) for f in self.frames)
         info.nevents = len(self.events)
         raise _Raise(info)
 
